@@ -117,6 +117,19 @@ def gen_large(rng, kind):
             case["data"]["weak"] = True            # weak per-point evidence against a large switching cost
             case["beta"] = dict(form="float", value=float(rng.choice([30.0, 100.0])))
             case["init"] = dict(kind="blocks")
+    elif kind == "manyrounds":
+        # a small problem kept from converging for dozens of rounds by forced labellings, then left to finish on its own:
+        # behaviour that only sets in after many rounds shows in the natural rounds and in the final result
+        case["data"].update(T=int(rng.integers(60, 120)), N=int(rng.integers(1, 3)), n_reg=2, seg=int(rng.integers(8, 30)))
+        case["W"] = int(rng.integers(1, 3))
+        case["K"] = int(rng.integers(2, 4))
+        case["m"] = 2
+        n_forced = int(rng.choice([12, 31, 33, 40, 52, 70]))
+        case["limit"] = n_forced + int(rng.choice([1, 2, 30]))
+        case["beta"] = dict(form="float", value=float(rng.choice([0.5, 2.0, 8.0])))
+        case["init"] = dict(kind="blocks")
+        syms = ["A", "B", "C"]
+        case["label_script"] = dict(pattern=[syms[j % 3] for j in range(n_forced)], then="natural")
     elif kind == "manyK":
         case["data"].update(T=int(rng.integers(300, 520)), N=int(rng.integers(1, 3)), n_reg=6, seg=12)
         case["W"] = 1 if case["data"]["N"] == 2 else int(rng.integers(1, 3))
